@@ -192,16 +192,17 @@ def main():
     unconfirmed = []
     exit_code = 0
     reported = set()
+    attempts = {}
     known_printed = set()
     new_violations = 0
     for item in violations:
         v = item['violation']
         key = (v['oracle'], json.dumps(v.get('signature'), sort_keys=True))
-        if key in reported:
+        if key in reported or attempts.get(key, 0) >= 4:
             continue
-        reported.add(key)
         known = runner.match_known(v, findings)
         if known is not None:
+            reported.add(key)
             if known['id'] not in known_printed:
                 known_printed.add(known['id'])
                 print(f'KNOWN-FINDING: property={args.property} {known["what"]}')
@@ -213,11 +214,14 @@ def main():
             ok, why = prop.confirm(spec, v)
             if not ok:
                 # in-process simulated workers share module / static state, real workers do not: an observation
-                # that vanishes with really forked workers is an artefact of the harness, not a violation
+                # that vanishes with really forked workers is an artefact of the harness, not a violation.  Another
+                # run with the same kind of observation (e.g. one without pooled calls) still gets its own chance
+                attempts[key] = attempts.get(key, 0) + 1
                 unconfirmed.append(f'violation does not reproduce under real process isolation ({why}): '
                                    f'{v["oracle"]}: {v["message"]}')
                 new_violations -= 1
                 continue
+        reported.add(key)
         if not args.no_shrink:
             spec, steps = runner.shrink(args.property, spec, v, budget_s=45 if args.tier == 'quick' else 180)
             res = runner.execute_spec(prop, spec)
